@@ -112,6 +112,15 @@ PROPS = {
                         "built-in types and the standard scalars are left out of the model's schemas"],
         "partial": "'conforming => accepted' is decided per generated case (no formal grammar of the documented syntax); 'accepted => no planning or lookup error' is a theorem only up to the lookup table (C09_accepted_has_lookup_entries) and is otherwise exercised by serving accepted federations with random valid queries",
     },
+    "C12": {
+        "harness": [{"name": "c12"}],
+        "n_quick": 120, "n_thorough": 3000, "known_for": ["C01", "C15", "C14", "C03", "C05"],
+        "race": True,
+        "assumptions": ["downstream services are spec-conformant executors over their own schema (simulators, checked against Gql/RefExec.v per request)",
+                        "'alone' means: served by a fresh gateway instance over the same schema and data",
+                        "downstream calls are attributed to client requests by a forwarded header unique to each request; the order of plumbing fragments, lookup aliases and ids within a lookup (Go map iteration) is not compared"],
+        "partial": "the frame theorem assumes that each request's in-place rewrites stay inside its own deep copy; that bramble's rewrites do is not proved (Go pointer aliasing is not modelled) but exercised: sequential and concurrent batches on one instance, with and without a parsed-query cache, thorough tier under the race detector. The Go scheduler's interleavings inside one request are not controlled.",
+    },
     "C17": {
         "harness": [{"name": "c17"}],
         "n_quick": 60, "n_thorough": 1500,
@@ -211,6 +220,11 @@ META = {
         "text": "Model of validate.go (every rule function, ValidateSchema's order, the visited-set recursion over namespace links) in Model/Validate.v. Theorems, for every schema: C09_accepted_obeys_rules (whatever is accepted satisfies each listed rule: root names, the exact shape of Query.service and Service, id: ID! on every boundary object, every marked lookup well typed in single or array form and exactly one per boundary object, namespace types only inside namespaces or roots, every namespace link reachable from a root non-null at any depth incl. cyclic namespaces - a DFS closure proof, validity after merge), C09_accepted_has_lookup_entries (the executor's lookup table then has an entry for every boundary type the service declares), C09_legacy_syntax_refuted (the former Node syntax is accepted and yields an empty lookup table: known finding). Tie on every run: service schemas of random federations x 41 single-rule mutations at random positions (AST level, reprinted and reloaded), verdict and failing stage of the real ValidateSchema vs the model; oracles: every rule-breaking mutant rejected with an error (never a panic), every conforming variant accepted, accepted federations polled and served with random valid queries without planning/lookup errors.",
         "note": "Three genuine defects found while modelling and repaired (fix: commits): nil Query dereference, unbounded recursion on cyclic namespaces, lookups unchecked when no boundary type is declared (then Arguments[0] panics in buildBoundaryFieldsMap). 'Follows the documented syntax' has no formal definition: the generator's conforming schemas stand for it.",
         "technique": "Coq model + proofs (case analysis per rule, counting lemma for 'exactly one', DFS-closure induction on fuel) + refutation witness; differential correspondence on mutated schemas; serve-and-query oracle",
+    },
+    "C12": {
+        "text": "Theorem C12_isolation_frame_partial: if requests work on pairwise disjoint copies and every in-place rewrite of a request lands in its own copy, then for every interleaving of all requests' rewrites each request reads - in its copy, in the parsed-query cache, in the merged schema - exactly what it reads alone, and shared cells never change (a frame argument over an abstract heap; C12_without_copy_refuted shows the copy is necessary). The code's side of the assumption is decided behaviourally on every run: batches of 3-6 requests (same document with other variables incl. @skip/@include conditions, same document under other permission sets, other documents, duplicates; each with its own forwarded headers) are served alone by fresh instances, then twice in sequence and twice concurrently by ONE instance, with and without an LRU parsed-query cache; every response (data bytes, error multiset) and every set of downstream calls must equal the request's alone, every downstream call must carry exactly its request's forwarded headers, the merged schema's SDL must not change; the concurrent observations also go through the whole-gateway model correspondence (check_e2e_case).",
+        "note": "Partial: confinement of bramble's in-place rewrites to the per-request copy is not a theorem. Thorough tier builds the harness with -race.",
+        "technique": "Coq frame theorem over an abstract heap + refutation; differential correspondence under sequential and concurrent sharing; solo-vs-batch oracle; race detector (thorough)",
     },
     "C17": {
         "text": "Model of the hand-written introspection resolvers (executable_schema.go:340-620) specialised to the standard introspection query, reading either the merged schema or the permission-filtered view of Model/View.v, and of the inverse a client applies (answer -> schema) in Model/Introspect.v. Theorems: C17_reconstruction_roundtrip (for every schema whose references resolve and nest at most seven wrappers, reconstruct (introspect S) = normalize S: types, kinds, descriptions, fields, arguments with defaults, type references with list/non-null wrapping, deprecations, interfaces, possible types, enum values, input fields, directives) and C17_fields_confined_partial (with permissions, every field of every type the answer lists is selectable by a query that permission filtering leaves intact; composition with the C18 view theorem). Tie on every run: the standard query through the real gateway on merged schemas of fixtures and generated federations, with and without random permission trees; the model's JSON must equal the gateway's data exactly. Oracles: the reconstructed schema equals the permitted part, every type and field name revealed is permitted, no null among interfaces/possibleTypes/types, the round-trip hypothesis holds of the schema; __type by name (in view, outside, unknown), aliases and includeDeprecated (false, absent, variable) agree with projections of the standard answer; with introspection disabled no schema name is revealed.",
